@@ -8,25 +8,29 @@ ID = 'C04'
 HARNESS_BIN = 'c04'
 RUN_MODULE = 'Run.C04'
 COQ_EXTRA = []
-THEOREMS_PLANNED = ['C04_lookup_sound', 'C04_record_sound', 'C04_scan_no_false_negative', 'C04_digest_chunk_independent',
-            'C04_scan_exact_refuted', 'C04_scan_exact_regular', 'C04_mode_equivalence']
+THEOREMS = ['C04_lookup_sound', 'C04_input_digest_sound', 'C04_record_sound', 'C04_scan_exact', 'C04_scan_no_false_negative',
+            'C04_scan_chunk_independent', 'C04_digest_chunk_independent', 'C04_mode_equivalence', 'C04_markers_complete']
 ASSUMPTIONS = [
     'BLAKE3 is modelled as an injective function H on file contents and an injective function HT on the '
     '(date, SOURCE_DATE_EPOCH, mtime) fields (section hypotheses H_inj / HT_inj of the theorems); hex digests have '
     'no "-", so a plain and a salted include digest never compare equal (the two constructors of idigest)',
     'file_stat_matches: "equal (size, mtime, ctime) implies equal bytes" is an explicit hypothesis (stat_trust) of '
     'C04_lookup_sound, used only for includes accepted by the stat shortcut (that option\'s documented trade)',
-    'ignore_time_macros: documented as able to give false positives; with it the theorem claims unchanged bytes only, '
+    'ignore_time_macros: documented as able to give false positives; with it the theorems claim unchanged bytes only, '
     'not unchanged __DATE__/__TIMESTAMP__ expansions',
     'a newly created header that shadows a recorded one (documented caveat) is excluded by hypothesis '
-    'no_new_shadowing_file of C04_mode_equivalence; the preprocessor is an abstract function with the stated frame',
-    'C04_mode_equivalence needs env_main ⊆ env_pp (S16, repaired by the C02 worker) as a named hypothesis',
-    'paths: the file-system snapshot has no symlinks (symlink_metadata and metadata coincide); PathBuf order on the '
-    'recorded includes is modelled as byte order (single-directory names in the differential leg)',
+    'no_new_shadowing_file of C04_mode_equivalence; the preprocessor is an abstract function with the stated frame '
+    '(pp_frame); skip_system_headers: unchanged system headers are part of that frame hypothesis',
+    'C04_mode_equivalence needs env_main ⊆ env_pp (S16, repaired by the C02 worker) as the named hypothesis '
+    'env_main_subset_env_pp, and the equality of the two requests\' manifest keys (C02) as filter_env equality',
+    'file system: no symlinks (symlink_metadata = metadata; `..` resolved lexically: Model/PpPaths.v canon_path); '
+    'PathBuf order on the recorded includes is modelled as byte order of the rendered components',
     'the date used when recording is the date at the instant of recording (a compile that runs across midnight can '
-    'record the next day; same window as in ccache) and SOURCE_DATE_EPOCH is read from the server environment',
-    'process_preprocessed_file / process_preprocessor_line (line-marker parsing) are NOT modelled in this round: '
-    'C04_markers_complete is missing, the claim is partial there (the recorder is driven per include path)',
+    'record the next day; same window as in ccache) and SOURCE_DATE_EPOCH is read from the SERVER environment '
+    '(the client strips it from the forwarded environment, src/cmdline.rs)',
+    'C04_markers_complete covers outputs made of `# N "path" flags` and body lines (wf_line); the `#line` / '
+    '`#pragma GCC pch_preprocess` syntaxes, the GCC-6 # 31/# 32 lines, .incbin and distcc-pump chatter are modelled '
+    '(Model/LineMarker.v) and checked differentially only',
 ]
 TRUSTED = [
     'translator/c04_consts.py (HASH_BUFFER_SIZE, MAX_HAYSTACK_LEN, the three time-macro patterns, the two manifest limits)',
@@ -82,7 +86,7 @@ def tm_split(rng, text, sizes):
 
 
 def gen_timemacro(rng, tier):
-    n = 5000 if tier == 'quick' else 100000
+    n = 15000 if tier == 'quick' else 150000
     small = [(1, 3), (2, 2), (3, 2), (4, 2), (5, 1), (7, 1), (8, 1), (11, 1), (12, 3), (13, 4), (14, 4), (15, 1), (20, 2), (26, 1), (27, 1), (40, 1)]
     out = []
     for i in range(n):
@@ -133,18 +137,11 @@ def mon_timemacro(case, out):
             vs.append('time macro %s occurs in the file but the scan over reads of sizes %s missed it (false negative: '
                       'the result would be cached although it depends on the clock)' % (PATS[name].decode(), [len(c) for c in case]))
         if out[i] and not present:
-            if tm_regular(case):
-                vs.append('scan reports %s for a regular-file chunking although the file does not contain it' % PATS[name].decode())
-            else:
-                vs.append('S17: scan reports %s across short reads %s although the file does not contain it (false positive, '
-                          'harmless direction)' % (PATS[name].decode(), [len(c) for c in case]))
+            vs.append('scan reports %s over reads of sizes %s although the file does not contain it (the outcome depends '
+                      'on how the bytes were split into reads)' % (PATS[name].decode(), [len(c) for c in case]))
     if not out[3]:
         vs.append('digest depends on how the bytes were split into reads')
     return vs
-
-
-def classify_timemacro(case, out, v):
-    return 'C04-S17' if v.startswith('S17:') else None
 
 
 def stats_timemacro(case, out):
@@ -198,6 +195,51 @@ def mon_toonew(case, out):
     if bool(out) != want:
         return ['include_is_too_new(mtime=%s, ctime=%s, start=%d) = %s: a header written at/after the compile start would be recorded' % (m, c, s, out)]
     return []
+
+
+# ------------------------------------------------------------------ ppkey
+
+def gen_ppkey(rng, tier):
+    n = 300 if tier == 'quick' else 5000
+    out = []
+    for _ in range(n):
+        vs = []
+        base = rng.choice(CONTENTS)
+        for _ in range(rng.range(2, 6)):
+            b = base if rng.chance(1, 2) else rng.choice(BY_LEN[len(base)] if rng.chance(1, 2) else CONTENTS)
+            vs.append([b, rng.choice([b'', b'', b'1', b'2']), rng.choice([5, 5, 7])])
+        out.append([1 if rng.chance(1, 3) else 0, vs])
+    return out
+
+
+def mon_ppkey(case, out):
+    itm, vs = case
+    if not isinstance(out, list) or len(out) != len(vs):
+        return ['malformed implementation output %r' % (out,)]
+    res = []
+
+    def relevant(v):
+        b, d, m = v
+        if itm:
+            return (b,)
+        return (b, d if PATS['date'] in b else None, m if PATS['timestamp'] in b else None)
+    for i, (v, c) in enumerate(zip(vs, out)):
+        disabled = (not itm) and PATS['time'] in v[0]
+        if disabled != (c == 0):
+            res.append('variant %d: input %r: direct mode %s' % (i, v[0], 'not disabled although it mentions __TIME__' if disabled else 'disabled without __TIME__'))
+            continue
+        if c == 0:
+            continue
+        for j in range(i):
+            if out[j] == 0:
+                continue
+            same_key = out[j] == c
+            if same_key and relevant(vs[j]) != relevant(v):
+                res.append('variants %d and %d share a manifest key although the input file / its __DATE__ / __TIMESTAMP__ '
+                           'expansion differ: %r vs %r' % (j, i, vs[j], v))
+            if not same_key and relevant(vs[j]) == relevant(v):
+                res.append('variants %d and %d have different manifest keys for the same input (%r)' % (j, i, v))
+    return res[:4]
 
 
 # ------------------------------------------------------------------ ppcache
@@ -355,7 +397,7 @@ def gen_limits_case(n, nhdr):
 
 
 def gen_ppcache(rng, tier):
-    n = 1500 if tier == 'quick' else 30000
+    n = 2500 if tier == 'quick' else 30000
     out = [gen_ppcache_case(rng) for _ in range(n)]
     out.append(gen_limits_case(104, 2))
     if tier != 'quick':
@@ -527,16 +569,299 @@ def neigh_ppcache(case):
         yield case[:-1] + [[b'look', d, st[2]]]
 
 
+# ------------------------------------------------------------------ linemarker
+
+R0 = b'/dev/shm/vh-c04l-AAAAAA'
+LM_START = 5000
+
+
+def lm_tree(rng):
+    """a small source tree below R0; returns (cwd, input, files)"""
+    cwd = R0 + b'/w'
+    old = LM_START - 10
+    files = [
+        [cwd + b'/input.c', 0, b'int main;\n', old, 0],
+        [cwd + b'/a.h', 0, rng.choice(CONTENTS), old, 0],
+        [cwd + b'/sub/b.h', 0, rng.choice(CONTENTS), old, 0],
+        [R0 + b'/inc/c.h', 0, rng.choice(CONTENTS), old, 0],
+        [cwd + b'/inc/c.h', 0, b'int shadow;\n', old, 0],
+        [cwd + b'/sub', 1, b'', old, 0],
+        [cwd, 1, b'', old, 0],
+        [R0 + b'/inc/sys.h', 0, b'int sys;\n', old, 0],
+    ]
+    if rng.chance(1, 8):
+        files[rng.range(1, 3)][3] = LM_START + rng.choice([0, 1])   # too new
+    if rng.chance(1, 20):
+        files.append([cwd + b'/fifo', 3, b'', old, 0])
+    return cwd, cwd + b'/input.c', files
+
+
+LM_PATHS = [b'a.h', b'./a.h', b'sub/b.h', b'sub/../a.h', b'sub/./b.h', b'sub//b.h', b'../inc/c.h', b'inc/c.h',
+            R0 + b'/inc/c.h', R0 + b'/inc/../inc/c.h', R0 + b'/inc/sys.h', b'<built-in>', b'<command-line>',
+            R0 + b'/w', b'.', b'sub', b'nope.h', b'input.c', R0 + b'/w/input.c', b'./input.c', b'fifo', b'a.h']
+
+
+def lm_line(rng):
+    k = rng.weighted([('marker', 12), ('body', 8), ('hashbody', 3), ('line', 2), ('pragma', 1), ('gcc6', 2),
+                      ('incbin', 1), ('distcc', 1), ('bad', 2), ('empty', 1)])
+    p = rng.choice(LM_PATHS)
+    if k == 'marker':
+        fl = rng.choice([b'', b'', b' 1', b' 2', b' 3', b' 1 3', b' 1 3 4', b' 2 3'])
+        return b'# %d "%s"%s' % (rng.range(1, 40), p, fl)
+    if k == 'line':
+        return b'#line %d "%s"' % (rng.range(1, 40), p)
+    if k == 'pragma':
+        return b'#pragma GCC pch_preprocess "%s"' % p
+    if k == 'gcc6':
+        return rng.choice([b'# 31 "<command-line>"', b'# 32 "<command-line>" 2', b'# 3 "a.h"', b'# 31 "a.h"'])
+    if k == 'body':
+        return rng.choice([b'int x = 1;', b'', b'typedef int t; # 1 "nope.h"', b'char *s = "# 1 \\"x\\"";', b'  # 3 "nope.h"',
+                           b'extern int f(void);', b'x'])
+    if k == 'hashbody':
+        return rng.choice([b'#pragma once', b'#  pragma pack(1)', b'#pragma GCC diagnostic push', b'#', b'# ', b'#line', b'# x "nope.h"',
+                           b'#ident "v"'])
+    if k == 'incbin':
+        return rng.choice([b'asm(".incbin \\"blob\\"");', b' .incbin "blob"', b'.incbin"blob"', b'.incbinx', b'.incbin  "blob"'])
+    if k == 'distcc':
+        return rng.choice([b'__________Using distcc-pump from /usr/bin', b'___________', b'__________', b' ___________x'])
+    if k == 'bad':
+        return rng.choice([b'# 1 "a.h', b'# 1 a.h', b'# 1 ""', b'# 1 "', b'# 12', b'#line 3', b'# 1 "a.h" "b"'])
+    return b''
+
+
+def gen_lm_random(rng, n):
+    out = []
+    for _ in range(n):
+        cwd, inp, files = lm_tree(rng)
+        lines = [lm_line(rng) for _ in range(rng.range(1, 9))]
+        text = b'\n'.join(lines)
+        if rng.chance(5, 6):
+            text += b'\n'
+        if rng.chance(1, 6):
+            text += rng.choice([b'x', b'int y;', b'# 1 "a.h"', b'# 1 "a.', b'___________', b'12345678'])
+        out.append([rng.below(32), LM_START, rng.choice(DATES), cwd, inp, text, files])
+    return out
+
+
+def gen_lm_real(rng, tier):
+    """real `gcc -E` / `clang -E` output for a small translation unit in the scratch tree layout"""
+    import shutil
+    import subprocess
+    import tempfile
+    out = []
+    for cc in ('gcc', 'clang'):
+        if not shutil.which(cc):
+            continue
+        d = tempfile.mkdtemp(prefix='vh-c04l-', dir='/dev/shm')
+        try:
+            w = os.path.join(d, 'w')
+            os.makedirs(os.path.join(w, 'sub'))
+            os.makedirs(os.path.join(d, 'inc'))
+            srcs = {
+                'w/input.c': b'#include <stddef.h>\n#include "a.h"\n#include "sub/b.h"\n#include "c.h"\nint main(void) { return A + B + C; }\n',
+                'w/a.h': b'#pragma once\n#define A 1\n', 'w/sub/b.h': b'#include "../a.h"\n#define B 2\n', 'inc/c.h': b'#define C 3\n'}
+            for n, b in srcs.items():
+                open(os.path.join(d, n), 'wb').write(b)
+            for args in (['-E', 'input.c', '-I../inc'], ['-E', 'input.c', '-I', os.path.join(d, 'inc')], ['-E', './input.c', '-I../inc', '-P']):
+                r = subprocess.run([cc] + args, cwd=w, stdout=subprocess.PIPE, stderr=subprocess.DEVNULL, timeout=60)
+                if r.returncode != 0:
+                    continue
+                text = r.stdout.replace(d.encode(), R0)
+                files = [[R0 + b'/' + n.encode(), 0, b, LM_START - 10, 0] for n, b in srcs.items()]
+                files += [[R0 + b'/w', 1, b'', LM_START - 10, 0], [R0 + b'/w/sub', 1, b'', LM_START - 10, 0]]
+                import re as _re
+                for m in set(_re.findall(rb'^# \d+ "(/[^"]+)"', text, _re.M)):
+                    if m.startswith(R0):
+                        continue
+                    if os.path.isfile(m):
+                        files.append([m, 0, open(m, 'rb').read(), LM_START - 10, 1])
+                    elif os.path.isdir(m):
+                        files.append([m, 1, b'', LM_START - 10, 1])
+                for ci in (9, 11):
+                    out.append([ci, LM_START, b'', R0 + b'/w', R0 + b'/w/input.c', text, files])
+        finally:
+            shutil.rmtree(d, ignore_errors=True)
+    return out
+
+
+def gen_linemarker(rng, tier):
+    return gen_lm_real(rng, tier) + gen_lm_random(rng, 3000 if tier == 'quick' else 40000)
+
+
+def lm_markers(text):
+    """independent reading of the line markers: (path, system) for every line `# N "path" flags` / `#line N "path"`"""
+    import re as _re
+    res = []
+    for line in text.split(b'\n'):
+        m = _re.match(rb'^(?:# (?=\d)|#line |#pragma GCC pch_preprocess)[^"]*"([^"]+)"(.*)$', line)
+        if m:
+            res.append((m.group(1), b'3' in m.group(2)))
+    return res
+
+
+def lm_canon(cwd, p):
+    """lexical canonical absolute path (what the OS would open, no symlinks)"""
+    if not p.startswith(b'/'):
+        p = cwd + b'/' + p
+    out = []
+    for seg in p.split(b'/'):
+        if seg in (b'', b'.'):
+            continue
+        if seg == b'..':
+            if out:
+                out.pop()
+            continue
+        out.append(seg)
+    return b'/' + b'/'.join(out)
+
+
+def mon_linemarker(case, out):
+    """completeness of the recorder: when it accepts the text, every regular file announced by a well-formed line
+    marker (other than the input file and skipped system headers) is among the recorded paths"""
+    ci, start, date, cwd, inp, text, files = case
+    if not isinstance(out, list) or not out:
+        return ['malformed implementation output']
+    if out[0] == b'panic':
+        return ['process_preprocessed_file panicked on this preprocessor output']
+    if out[0] != b'ok':
+        return []
+    # the scanner stops 7 bytes before the end and reads paths up to the next quote: only judge lines that are
+    # complete and lie before that point; the GCC-6 workaround lines are special
+    body = text[:max(0, len(text) - 8)]
+    body = body[:body.rfind(b'\n') + 1] if b'\n' in body else b''
+    if b'"<command-line>"' in text and (b'# 31 ' in text or b'# 32 ' in text):
+        return []
+    fsd = {f[0]: f for f in files}
+    ssh = bool(ci & 2)
+    rec = set(lm_canon(b'/', r) for r in out[1])     # recorded PathBufs keep `..`; the OS resolves it
+    vs = []
+    for p, system in lm_markers(body):
+        if p.startswith(b'<') and p.endswith(b'>'):
+            continue
+        if system and ssh:
+            continue
+        c = lm_canon(cwd, p)
+        f = fsd.get(c)
+        if c == inp or f is None or f[1] != 0:
+            continue
+        if c not in rec:
+            vs.append('line marker announces %s (regular file %s) but the recorder accepted the text without recording it (recorded: %s)'
+                      % (p.decode('latin-1'), c.decode('latin-1'), [r.decode('latin-1') for r in sorted(rec)]))
+    return vs[:3]
+
+
+def stats_linemarker(case, out):
+    ks = ['res=' + (out[0].decode() if isinstance(out, list) and out else 'malformed')]
+    ks.append('markers=%d' % min(len(lm_markers(case[5])), 8))
+    if case[6] and any(f[4] for f in case[6]):
+        ks.append('real_compiler_output')
+    return ks
+
+
+def shrink_linemarker(case):
+    ci, start, date, cwd, inp, text, files = case
+    lines = text.split(b'\n')
+    for i in range(len(lines)):
+        yield [ci, start, date, cwd, inp, b'\n'.join(lines[:i] + lines[i + 1:]), files]
+    for i in range(len(files)):
+        yield [ci, start, date, cwd, inp, text, files[:i] + files[i + 1:]]
+
+
+# ------------------------------------------------------------------ end to end (real server + gcc)
+
+E2E_CONFIGS = [9, 13, 25, 17, 29, 11]
+
+
+def prebuild(rep):
+    ok, out = pipeline.build_repo_bins(('sccache',))
+    rep.oblige('build:sccache(e2e)', ok, out[-2000:] if not ok else 'cargo build --bin sccache, --cfg sccache_verif')
+    rep.e2e_ok = ok
+
+
+def extra(rep, known):
+    import shutil
+    from concurrent.futures import ThreadPoolExecutor
+    from e2e import c04_e2e
+    if not getattr(rep, 'e2e_ok', False) or not shutil.which('gcc'):
+        rep.notes.append('e2e leg not run (sccache binary or gcc missing)')
+        return
+    import time
+    t0 = time.time()
+    sccache = pipeline.repo_bin('sccache')
+    cfgs = E2E_CONFIGS if rep.tier == 'quick' else list(range(32))
+    scen = [(ci, e) for ci in cfgs for e in c04_e2e.EDITS]
+    with ThreadPoolExecutor(max_workers=8) as ex:
+        results = list(ex.map(lambda s: c04_e2e.run_scenario(sccache, s[0], s[1]), scen))
+    cases = [c04_e2e.model_case(ci, e) for ci, e in scen]
+    mout = pipeline.run_sharded([os.path.join(pipeline.BUILD, 'modelrun-C04'), 'ppcache'], [sx.dumps(c) for c in cases])
+    bad = 0
+    for (ci, e), r, m in zip(scen, results, mout):
+        rep.evaluations += 1
+        rep.traces += 1
+        rep.count('e2e.edit=' + e)
+        rep.count('e2e.decisions=' + ','.join(r['decisions']))
+        per = pipeline.parse_out(m)[ci]
+        want = [o[1].decode() for o in per[1:]]
+        if any(r['rcs']):
+            rep.violation('correspondence', 'e2e', sx.dumps([ci, e.encode()]), 'a compile failed: %r %s' % (r['rcs'], r['out']))
+            bad += 1
+            continue
+        if not r['obj_equal']:
+            rep.violation('property', 'e2e', sx.dumps([ci, e.encode()]),
+                          'config %d, header edit %s between two compiles: the object handed out by sccache differs from a '
+                          'direct gcc compile (direct-mode decisions: %s)' % (ci, e, r['decisions']))
+            bad += 1
+        elif r['decisions'] != want:
+            rep.violation('correspondence', 'e2e', sx.dumps([ci, e.encode()]),
+                          'direct-mode decisions of the real server %s differ from the model %s' % (r['decisions'], want))
+            bad += 1
+        else:
+            rep.distinct.add('e2e:%d:%s' % (ci, e))
+    # the header that is really read lives in ../inc, a decoy with the same name below the working directory
+    r = c04_e2e.run_dotdot(sccache)
+    rep.evaluations += 1
+    rep.traces += 1
+    rep.count('e2e.dotdot.decisions=' + ','.join(r['decisions']))
+    if any(r['rcs']):
+        rep.violation('correspondence', 'e2e', 'dotdot', 'a compile failed: %r' % (r['rcs'],))
+        bad += 1
+    elif not r['obj_equal']:
+        rep.violation('property', 'e2e', 'dotdot',
+                      'gcc -I../inc, header ../inc/c.h edited between two compiles (a decoy inc/c.h exists below the working '
+                      'directory): the object handed out by sccache differs from a direct compile (decisions %s)' % r['decisions'])
+        bad += 1
+    elif r['decisions'] != ['hit', 'miss']:
+        rep.violation('correspondence', 'e2e', 'dotdot', 'direct-mode decisions %s, expected hit then miss' % r['decisions'])
+        bad += 1
+    rep.legs['e2e'] = dict(cases=len(scen) + 1, disagreements=bad, wall_s=round(time.time() - t0, 1))
+    rep.oblige('correspondence:e2e', bad == 0, '%d scenarios (real sccache server + gcc), %d bad' % (len(scen), bad))
+    rep.rule.append('e2e: %d configurations x %d header edits; object of the second compile == direct gcc compile, '
+                    'and the server log\'s direct-mode hit/miss == model' % (len(cfgs), len(c04_e2e.EDITS)))
+    pipeline.log('leg e2e: %d scenarios, %d bad, %.1fs' % (len(scen), bad, time.time() - t0))
+
+
 def legs(tier):
     return [
         Leg('toonew', gen_toonew, monitor=mon_toonew,
             rule='exhaustive over {absent, start-1, start, start+1}^2 for (mtime, ctime)'),
-        Leg('timemacro', gen_timemacro, monitor=mon_timemacro, classify=classify_timemacro, stats=stats_timemacro,
+        Leg('timemacro', gen_timemacro, monitor=mon_timemacro, stats=stats_timemacro,
             shrink=shrink_timemacro, neighbours=neigh_timemacro,
             nontrivial=lambda case, out: len(case) >= 2 and any(p in b''.join(case) for p in PATS.values()),
             rule='PRNG texts over a 12-letter alphabet with planted patterns / near-patterns / NULs, split into reads '
-                 'of 1..40 bytes in four size profiles (incl. the S17 shape), plus regular-file chunkings with full '
+                 'of 1..40 bytes in four size profiles (incl. the shape of the repaired S17 defect), plus regular-file chunkings with full '
                  '128 KiB reads and patterns on the boundaries; non-trivial = >=2 reads and a pattern present'),
+        Leg('ppkey', gen_ppkey, monitor=mon_ppkey,
+            rule='PRNG: 2-5 variants of an input file (contents with/without time-macro text, same-size variants, '
+                 'SOURCE_DATE_EPOCH, mtime) under ignore_time_macros on/off; the equality pattern of the real '
+                 'preprocessor_cache_entry_hash_key is compared with the model and with the property'),
+        Leg('linemarker', gen_linemarker, monitor=mon_linemarker, stats=stats_linemarker,
+            shrink=shrink_linemarker,
+            nontrivial=lambda case, out: isinstance(out, list) and out and out[0] == b'ok' and len(out[1]) > 0,
+            rule='real gcc -E / clang -E outputs of a small include tree (3 argument variants x 2 configurations) + PRNG '
+                 'texts of 1-9 lines: line markers in the three syntaxes with 22 path spellings (relative, ./, .., //, '
+                 'absolute, <built-in>, directory, missing, input, fifo) and flag sets, body lines, #pragma lines, GCC-6 '
+                 '# 31/# 32 lines, .incbin, distcc-pump chatter, malformed markers, with and without final newline; '
+                 'process_preprocessed_file runs on real files; non-trivial = accepted with >= 1 recorded include'),
         Leg('ppcache', gen_ppcache, monitor=mon_ppcache, stats=stats_ppcache, nontrivial=nontrivial_ppcache,
             shrink=shrink_ppcache, neighbours=neigh_ppcache,
             rule='PRNG histories on real header files under /dev/shm: 1-3 recordings (fresh entry or accumulated, keys '
